@@ -451,6 +451,21 @@ def actfrc_clamp_confirmed(L, m, d, T, qvel, bias, i, j, tol, err_signed):
     return bool(pred != 0 and abs(err_signed - pred) <= 0.05 * abs(err_signed) + tol[i, j])
 
 
+def unclamped_ctrl_confirmed(L, m, T, qvel, bias, i, j, tol, share):
+    """per-entry confirmation of the raw-d->ctrl mechanism on the ACTUATOR share of a mismatch (called with the other family switched
+    off): with the clamped controls written into the twin's ctrl - the forces are the same, the actuation stage clamps - the share
+    `share` of entry (i,j) is gone (within tolerance and more than 95 % removed)"""
+    raw = T["ctrl"].copy()
+    eff = effective_ctrl(m, raw)
+    if not (raw != eff).any():
+        return False
+    try:
+        T["ctrl"][:] = eff
+        return bool(_closed(*_entry(L, m, T, qvel, bias), i, j, tol, share))
+    finally:
+        T["ctrl"][:] = raw
+
+
 def diagnose(L, m, d, T, qvel, bias, i, j, F2, Dan, tol):
     """name the force family responsible for a mismatch by switching families off on the twin, and - only after a confirmation of
     the specific mechanism on this entry (counterfactual / predicted-value test) - the known mechanism inside the family; without
@@ -500,6 +515,8 @@ def diagnose(L, m, d, T, qvel, bias, i, j, F2, Dan, tol):
                         Dx, Fx = _entry(L, m, T, qvel, bias)
                         if actfrc_clamp_confirmed(L, m, d, T, qvel, bias, i, j, tol, float(Dx[i, j] - Fx[i, j])):
                             ac += CLAMP
+                        elif unclamped_ctrl_confirmed(L, m, T, qvel, bias, i, j, tol, abs(float(Dx[i, j] - Fx[i, j]))):
+                            ac = "actuator-term-uses-unclamped-ctrl"
                         out = fl + "|" + ac
     except drv.MjError:
         pass
